@@ -6,7 +6,7 @@ EXTENDS ExtractIter, Json
 \* one JSON line per terminal state: the drawn tables, the root, and the expected result
 Export == [root |-> root,
            U |-> TableSeq(U, DOMAIN U), E |-> TableSeq(E, DOMAIN E),
-           C |-> [i \in 1..NF |-> IF i \in DOMAIN C THEN C[i] ELSE FALSE],
+           C |-> [i \in 1..NF |-> IF i \in DOMAIN C THEN C[i] ELSE 0],
            pc |-> pc, out |-> out, leaf |-> leaf, errors |-> errors]
 Emit == (pc \in {"done", "escaped"}) => PrintT(<<"EMIT", ToJson(Export)>>)
 BoundEmit == Bound /\ Emit
